@@ -18,6 +18,7 @@ LEVEL = {
  "C11": ("DESIGN.md §5 C11", "Seeded search over key sets biased to '/' and block boundaries with flush/compaction/restart schedules on the real Pebble-backed KV, against an independently written sorted reference; comparator laws and the engine's separator/successor contract on sampled triples."),
  "C12": ("DESIGN.md §5 C12", "Seeded search over write-request programs through a real storage node's public RPC handlers (simulated transport, simulated clock) with restarts; every response field, sampled reads and full DB dumps compared with an executable reference model folded over the node's own log."),
  "C13": ("DESIGN.md §5 C13", "Seeded search over unusual-but-valid WriteRequests (18 categories, 1-3 per run) interleaved with ordinary writes, leader changes and crash restarts that force log replay, on three real nodes; oracles: an RPC error for a request that is in the leader's log, failing NewTerm/BecomeLeader on replay, followers whose applied offset stops advancing, ordinary requests failing afterwards. Genuine defects found are listed in known_findings.json by input category and error."),
+ "C14": ("DESIGN.md §5 C14", "Seeded search over interleavings of session owners (heartbeats, ephemeral puts, close / silence / late writers), other writers on the same keys and leader changes (graceful and crash restarts) against a real node with real session timers on the simulated clock; the committed log is folded into the reference model and every session-ending entry is audited for 'exactly the owned records', plus timing oracles for early expiry, missing expiry and sessions unknown to a settled leader."),
  "C15": ("DESIGN.md §5 C15", "Seeded search over programs touching three adjacent secondary indexes on a real node; index queries of every kind and the index entries in DB dumps compared with a sorted per-index reference."),
  "C16": ("DESIGN.md §5 C16", "Seeded search over sequence-put programs (multi-put batches, deletes of the maximum, plain puts into the suffix space) with scheduled subscribers on a real node; key arithmetic model plus bounded-liveness check of subscribers."),
  "C17": ("DESIGN.md §5 C17", "Seeded search over write histories with notification subscribers that start, disconnect and resume (also across a restart and new term) on a real node; streams compared per offset with batches derived by the reference model from the committed log."),
